@@ -72,6 +72,15 @@ def _install_signatures(model: Model) -> None:
         if init is not None and init.node.args.vararg is None and ci.name not in table:
             a = init.node.args
             table[ci.name] = [[x.arg for x in list(a.posonlyargs) + list(a.args)][1:]]
+    # `cls(...)` inside classmethods: any constructor of the package (the matcher keeps the candidates that know the keywords used at the call)
+    table["cls"] = []
+    for ci in model.all_classes:
+        init = ci.find_method("__init__")
+        if init is not None and init.node.args.vararg is None:
+            a = init.node.args
+            ps = [x.arg for x in list(a.posonlyargs) + list(a.args)][1:]
+            if ps and ps not in table["cls"]:
+                table["cls"].append(ps)
     # module-level functions are also reachable as `<module>.<name>`: that spelling is unambiguous even when the bare name is not
     for f in model.all_functions:
         if f.cls is None and f.parent is None and not f.is_overload and f.node.args.vararg is None:
